@@ -369,6 +369,21 @@ func DependsOn(v ssa.Value, pred func(ssa.Value) bool) bool {
 				return true
 			}
 		}
+		// a buffer filled by the copy builtin depends on the copied source
+		switch x.(type) {
+		case *ssa.MakeSlice, *ssa.Slice:
+			if refs := x.Referrers(); refs != nil {
+				for _, r := range *refs {
+					if cl, ok := r.(*ssa.Call); ok {
+						if bi, ok := cl.Call.Value.(*ssa.Builtin); ok && bi.Name() == "copy" && len(cl.Call.Args) == 2 && cl.Call.Args[0] == x {
+							if walk(cl.Call.Args[1]) {
+								return true
+							}
+						}
+					}
+				}
+			}
+		}
 		// an Alloc used as a value (slice of a varargs array, address passed on) depends on what is stored in it
 		if a, ok := x.(*ssa.Alloc); ok {
 			for _, st := range StoresInto(a) {
